@@ -5,6 +5,11 @@
  */
 #include "mon_common.h"
 
+/* by-pointer entry points exported for the bindings (no public prototype): d[9] == 1 in a request routes the call through them */
+XRL_EXTERN void Refractive_Index2(const char compound[], double E, double density, xrlComplex *result, xrl_error **error);
+XRL_EXTERN void Crystal_F_H_StructureFactor2(Crystal_Struct* crystal, double energy, int i_miller, int j_miller, int k_miller, double debye_factor, double rel_angle, xrlComplex* result, xrl_error **error);
+XRL_EXTERN void Crystal_F_H_StructureFactor_Partial2(Crystal_Struct* crystal, double energy, int i_miller, int j_miller, int k_miller, double debye_factor, double rel_angle, int f0_flag, int f_prime_flag, int f_prime2_flag, xrlComplex* result, xrl_error **error);
+
 static char **xe_str; static int xe_nstr;
 static char **xe_msg; static int xe_nmsg, xe_amsg;
 
@@ -27,7 +32,8 @@ static void xe_special(const xv_req *r, xv_resp *o, xrl_error **e) {
   int k;
   switch (r->fn) {
   case XS_Refractive_Index:
-    z = Refractive_Index(s, r->d[0], r->d[1], e); o->v[0] = z.re; o->v[1] = z.im; return;
+    if (r->d[9] == 1.0) { z.re = z.im = 7; Refractive_Index2(s, r->d[0], r->d[1], &z, e); } else z = Refractive_Index(s, r->d[0], r->d[1], e);
+    o->v[0] = z.re; o->v[1] = z.im; return;
   case XS_SymbolToAtomicNumber:
     o->v[0] = SymbolToAtomicNumber(s, e); return;
   case XS_AtomicNumberToSymbol: {
@@ -67,9 +73,12 @@ static void xe_special(const xv_req *r, xv_resp *o, xrl_error **e) {
   case XS_Bragg_angle: o->v[0] = Bragg_angle(c, r->d[0], r->i[0], r->i[1], r->i[2], e); break;
   case XS_Q_scattering_amplitude: o->v[0] = Q_scattering_amplitude(c, r->d[0], r->i[0], r->i[1], r->i[2], r->d[1], e); break;
   case XS_Crystal_F_H_StructureFactor:
-    z = Crystal_F_H_StructureFactor(c, r->d[0], r->i[0], r->i[1], r->i[2], r->d[1], r->d[2], e); o->v[0] = z.re; o->v[1] = z.im; break;
+    if (r->d[9] == 1.0) { z.re = z.im = 7; Crystal_F_H_StructureFactor2(c, r->d[0], r->i[0], r->i[1], r->i[2], r->d[1], r->d[2], &z, e); }
+    else z = Crystal_F_H_StructureFactor(c, r->d[0], r->i[0], r->i[1], r->i[2], r->d[1], r->d[2], e);
+    o->v[0] = z.re; o->v[1] = z.im; break;
   case XS_Crystal_F_H_StructureFactor_Partial:
-    z = Crystal_F_H_StructureFactor_Partial(c, r->d[0], r->i[0], r->i[1], r->i[2], r->d[1], r->d[2], r->i[3], r->i[4], r->i[5], e);
+    if (r->d[9] == 1.0) { z.re = z.im = 7; Crystal_F_H_StructureFactor_Partial2(c, r->d[0], r->i[0], r->i[1], r->i[2], r->d[1], r->d[2], r->i[3], r->i[4], r->i[5], &z, e); }
+    else z = Crystal_F_H_StructureFactor_Partial(c, r->d[0], r->i[0], r->i[1], r->i[2], r->d[1], r->d[2], r->i[3], r->i[4], r->i[5], e);
     o->v[0] = z.re; o->v[1] = z.im; break;
   case XS_Crystal_UnitCellVolume: o->v[0] = Crystal_UnitCellVolume(c, e); if (c) o->v[1] = c->volume; break;
   default: o->status = 16; break;
